@@ -25,6 +25,8 @@ async fn verif_enum_decode_and_verify_responses() {
             let request = HeaderRequest::with_origin(origin, amount);
             let res = decode_and_verify_responses(&request, &responses).await;
             // the property: accepted only as a non-empty run of validated headers with heights origin, origin+1, ... of at most `amount`
+            // a response with more entries than requested is never acceptable, whatever its entries are
+            if responses.len() as u64 > amount && res.is_ok() { println!("WITNESS C28: request origin {origin} amount {amount}: a response with {} entries ({seq:?}) was accepted", responses.len()); panic!("witness"); }
             if let Ok(hs) = &res {
                 let ok = !hs.is_empty() && hs.len() as u64 <= amount && hs.len() <= responses.len()
                     && hs.iter().enumerate().all(|(i, h)| h.height() == origin + i as u64 && h.validate().is_ok())
